@@ -462,9 +462,10 @@ fn run_db(sc: &Value, tr: &mut Tracer) {
 fn run_pan(sc: &Value, tr: &mut Tracer) {
 	tr.reset(json!({"kind": "pan"}));
 	for x in f32_inputs(sc) {
-		let mut e = json!({"a": "pan", "x": key32(x), "p": false, "l6": 0, "r6": 0, "l14": 0, "r14": 0});
+		let mut e = json!({"a": "pan", "x": key32(x), "p": false, "l6": 0, "r6": 0, "l14": 0, "r14": 0, "fin": true});
 		match guarded(|| Frame::new(1.0, 1.0).panned(Panning(x))) {
 			Ok(fr) => {
+				e["fin"] = json!(fr.left.is_finite() && fr.right.is_finite());
 				e["l6"] = json!(clampi((fr.left as f64 * 1e6).round(), 1e9));
 				e["r6"] = json!(clampi((fr.right as f64 * 1e6).round(), 1e9));
 				e["l14"] = json!(clampi((fr.left as f64 * 16384.0).round(), 1e6));
